@@ -150,6 +150,25 @@ func (d *DocSpec) permuted(r *RNG) *DocSpec {
 	return &n
 }
 
+// copyingRes is a Resource written outside the library: it keeps its values in a SoftResource and never hands out
+// its own slices.
+type copyingRes struct{ in *jsonapi.SoftResource }
+
+func (r copyingRes) Attrs() map[string]jsonapi.Attr { return r.in.Attrs() }
+func (r copyingRes) Rels() map[string]jsonapi.Rel   { return r.in.Rels() }
+func (r copyingRes) GetType() jsonapi.Type          { return r.in.GetType() }
+func (r copyingRes) Set(key string, v any)          { r.in.Set(key, v) }
+func (r copyingRes) Get(key string) any {
+	switch v := r.in.Get(key).(type) {
+	case []string:
+		return append([]string{}, v...)
+	case []byte:
+		return append([]byte{}, v...)
+	default:
+		return v
+	}
+}
+
 func includedShareAnID(d *DocSpec) bool {
 	seen := map[string]bool{}
 	for _, rs := range d.Included {
@@ -208,7 +227,8 @@ func c11snapshot(b *docBuilt) c11snap {
 		inc = append(inc, names)
 	}
 	s.url = jsonStr(map[string]any{"fragments": b.URL.Fragments, "filter": filterText(b.URL.Params.Filter), "label": b.URL.Params.FilterLabel,
-		"sort": b.URL.Params.SortingRules, "page": b.URL.Params.Page, "include": inc, "type": b.URL.ResType, "id": b.URL.ResID})
+		"sort": b.URL.Params.SortingRules, "page": b.URL.Params.Page, "include": inc, "type": b.URL.ResType, "id": b.URL.ResID, "is_col": b.URL.IsCol, "rel_kind": b.URL.RelKind, "rel": b.URL.Rel.String() + "/" + b.URL.Rel.ToType,
+		"belongs_to": fmt.Sprint(b.URL.BelongsToFilter), "route": b.URL.Route, "text": b.URL.String(), "fields_nil": b.URL.Params.Fields == nil})
 	return s
 }
 
@@ -380,6 +400,49 @@ func (m c11) check(c *Ctx, d *DocSpec, r *RNG, reps, perms int) (string, bool) {
 		if string(out) != string(first) {
 			c.Violate("output-depends-on-order", "a permutation of to-many IDs / selection names / relationship-data names / included order changed the output:\n%s\n%s\noriginal %s\npermuted %s", clip(string(first), 900), clip(string(out), 900), desc(), clip(jsonStr(pd), 2000))
 			return "", false
+		}
+	}
+	// a Resource implementation written by the caller that hands out COPIES of its slices (a defensive getter): the
+	// library may sort what it was given, but what it writes must not depend on the stored order either
+	if (d.Kind == "resource" || (d.Kind == "collection" && d.Holder == "Resources")) && len(d.Primary) > 0 && len(d.Errors) == 0 {
+		var firstC []byte
+		for p := 0; p < 3; p++ {
+			pd := d
+			if p > 0 {
+				pd = d.permuted(r)
+			}
+			var b *docBuilt
+			if pi := Guard(func() {
+				b = pd.build()
+				own := func(rs *ResSpec) jsonapi.Resource {
+					t := *pd.Schema.Type(rs.Type)
+					t.Wrapped = false
+					return copyingRes{in: buildResource(&t, rs).(*jsonapi.SoftResource)}
+				}
+				if pd.Kind == "resource" {
+					b.Doc.Data = own(pd.Primary[0])
+				} else {
+					col := jsonapi.Resources{}
+					for _, rs := range pd.Primary {
+						col = append(col, own(rs))
+					}
+					b.Doc.Data = &col
+				}
+			}); pi != nil {
+				c.Violate("panic@"+pi.Frame+"/build", "%s", pi)
+				return "", false
+			}
+			out, ok := m.marshalOnce(c, b)
+			if !ok {
+				return "", false
+			}
+			c.Count("marshals_of_caller_written_resources")
+			if firstC == nil {
+				firstC = out
+			} else if string(out) != string(firstC) {
+				c.Violate("output-depends-on-order/caller-written-resource", "resources of a caller-written type whose Get returns copies of its slices: a permutation of to-many IDs / names changed the output:\n%s\n%s\noriginal %s", clip(string(firstC), 900), clip(string(out), 900), desc())
+				return "", false
+			}
 		}
 	}
 	// MarshalResource alone
